@@ -15,7 +15,7 @@ from __future__ import annotations
 import ast
 
 from ..cfg import cfg_of
-from ..dataflow import all_def_values, depends_on
+from ..dataflow import all_def_values, reaching_defs, depends_on
 from ..effects import MPI_COLLECTIVES, Unknown, ceval, classify_call, is_mpi_receiver
 from ..model import AnalysisError, FuncInfo, dotted, norm_stmt, unparse, walk_no_nested
 from .c05 import SOURCE_NAMES, _is_source_call, _passthrough_classes
@@ -956,6 +956,7 @@ def rule_r7(prog, res) -> None:
     # between the first pass and the result loop (or after it) something must react to `no active worker`
     guards = [n for n in cfg.nodes if n.kind == "test" and isinstance(n.ast, ast.If) and "active" in unparse(n.expr) and any(isinstance(o, (ast.Eq, ast.LtE, ast.Lt)) or isinstance(n.expr, ast.UnaryOp) for x in ast.walk(n.expr) if isinstance(x, ast.Compare) for o in x.ops)]
     local = [c for c in calls_in(rt) if isinstance(c.func, ast.Name) and c.func.id in ("map", "func")]
+    shared: list = []
     # … or the caller works off what the dispatcher left in the task iterator
     for g in _mpi_funcs(prog):
         gc = cfg_of(g.node)
@@ -968,8 +969,37 @@ def rule_r7(prog, res) -> None:
                         for c2 in gc.nodes[j].calls():
                             if c2 is not cc and any(isinstance(a, ast.Name) and a.id == itname for a in c2.args) and (dotted(c2.func) or "") in ("map", "list", "next") :
                                 local.append(c2)
+                                shared.append((g, nd, cc, itname))
                         if gc.nodes[j].kind == "for" and isinstance(gc.nodes[j].expr, ast.Name) and gc.nodes[j].expr.id == itname:
                             local.append(gc.nodes[j].ast)
+    # "what the dispatcher left": the dispatcher and the fallback must consume ONE one-shot iterator.  Every definition of
+    # the name that reaches the dispatcher call is an iterator object (iter(...), a generator, zip / map), never the raw
+    # parameter — a re-iterable container would be walked a second time from its start and every task run twice
+    ONE_SHOT = ("iter", "zip", "map", "filter", "enumerate", "chain", "islice")
+    for g, nd, cc, itname in shared:
+        _, IN = reaching_defs(g.node)
+        gcfg = cfg_of(g.node)
+        bad_def = None
+        for d in IN.get(nd.id, {}).get(itname, set()):
+            if d == -1:
+                bad_def = "the parameter as given by the caller"
+                continue
+            v = getattr(gcfg.nodes[d].ast, "value", None)
+            if not (isinstance(v, ast.GeneratorExp) or (isinstance(v, ast.Call) and (dotted(v.func) or "").split(".")[-1] in ONE_SHOT)):
+                bad_def = f"`{norm_stmt(gcfg.nodes[d].ast)[:60]}`"
+        if bad_def is not None:
+            res.violation(
+                "C06.R7",
+                g,
+                cc,
+                f"`{itname}` handed to the dispatcher and then worked off locally is not one shared one-shot iterator (reaching definition: {bad_def}): for a list / dict view the local pass "
+                "starts again at the first task, every task runs twice and every result is delivered twice",
+                key_extra=f"task-iterator-not-shared-{g.name}",
+            )
+        else:
+            res.ok("C06.R7", res.site(g, f"{itname} shared"), "dispatcher and local fallback consume the same one-shot iterator")
+        # … and the dispatcher does not re-wrap what it is given behind the caller's back in a way that matters: taking
+        # iter() of an iterator is the iterator itself (no obligation)
     if guards or local:
         res.ok("C06.R7", res.site(rt), "the dispatcher handles the case that no worker rank is active")
     else:
